@@ -10,7 +10,6 @@ impl_from_newtype_to_newtype!(crate::U7, U14);
 
 // From lower primitives to this newtype
 impl_from_primitive_to_newtype!(u8, U14);
-impl_from_primitive_to_newtype!(i8, U14);
 
 // From this newtype to higher primitives
 impl_from_newtype_to_primitive!(U14, u16);
@@ -28,6 +27,14 @@ impl_from_newtype_to_primitive!(U14, isize);
 // -
 
 // TryFrom higher primitives to this newtype
+impl core::convert::TryFrom<i8> for U14 {
+    type Error = crate::TryFromGreaterError;
+
+    fn try_from(value: i8) -> Result<Self, Self::Error> {
+        // Negative values are out of range. Delegate to the range-checked conversion from `i32`.
+        U14::try_from(i32::from(value))
+    }
+}
 impl_try_from_primitive_to_newtype!(u16, U14);
 impl_try_from_primitive_to_newtype!(u32, U14);
 impl_try_from_primitive_to_newtype!(i32, U14);
